@@ -3,13 +3,15 @@ _C20_MAIN = "server"
 
 PROPS["C20"] = prop(
     "exploration",
-    "rapid round-trip + single-field sensitivity sweep over reflection-generated message trees; strict reference decoder for ids; rapid-generated histories on a running server (publishes, permission changes, reload and restart of the P2P topic) with the invariant that every frame shows a P2P topic under the other participant's id; thorough tier: the same generators and oracles also run under Go's native coverage-guided fuzzer (rapid.MakeFuzz, 60 s per target, all cores)",
+    "rapid round-trip + single-field sensitivity sweep over reflection-generated message trees; strict reference decoder for ids; rapid-generated histories on a running server (publishes, permission changes, reload and restart of the P2P topic) with the invariant that every frame shows a P2P topic under the other participant's id; thorough tier: the same generators and oracles also run under Go's native coverage-guided fuzzer (rapid.MakeFuzz, 60 s per target, all cores); string payloads and string fields are drawn from a hostile-text alphabet (all C0 controls, DEL, U+0085, U+2028/2029, U+FEFF, non-BMP incl. unprintable U+E0001/U+10FFFF, escape look-alikes, quotes/backslashes, and - inside 'any' payloads - bytes that are not UTF-8) with the JSON rendering as reference, in both directions (struct-first through pbServSerialize/pbCliSerialize, protobuf-first through pbCliDeserialize/pbServDeserialize with JSON spellings no Go encoder emits)",
     "non-trivial = id strings that differ from a valid encoding in exactly one position (or only in the unused trailing bits), proper p2p pairs, "
     "grp/chn names, messages with >= 3 optional sub-structures present; distinct = distinct generated case by FNV-64 of its JSON",
     "Ids: all 64-bit values with boundary bias through every codec against an independent bit-level encoder/decoder; strings <= 30 bytes offered as ids and "
     "topic names; p2p symmetry/injectivity/decoding on generated pairs. Messages: reflection-generated ClientComMessage/ServerComMessage trees and generated "
     "pbx.ClientMsg through the real converters and the protobuf wire format, compared on the projection both schemas define, plus a sweep that changes every "
-    "JSON-tagged leaf on its own and requires the protobuf message and the decoded struct to change. Sampled, not exhaustive.",
+    "JSON-tagged leaf on its own and requires the protobuf message and the decoded struct to change. Every 'any' payload (data/pub content, desc public/private/trusted, head values, ctrl params, note/info payload) "
+    "and plain string field is also filled with control characters 0x00-0x1f, DEL, C1/line-separator/BOM characters, non-BMP code points, escape look-alikes and (payloads only) invalid UTF-8; the value a gRPC client "
+    "decodes from the protobuf bytes with a JSON decoder must equal the value a JSON client decodes, and bytes that are not JSON at all are a violation (class histogram anystr:*/anynested:*/str:* shows what was reached). Sampled, not exhaustive.",
     "Trusts the Go compiler, encoding/json, google.golang.org/protobuf and the reference codecs in harness/types/c20_test.go; fields the protobuf schema does "
     "not define are listed in harness/c20 (c20NotCarried) and reported in the evidence; the transport differential over a live gRPC stream is not part of this unit set.",
     "5/C20", "types-pure + server-pure",
